@@ -12,6 +12,8 @@ R4 cancellation                   : no suspension point is reachable after a mut
                                     before the mutation or inside it); shipped leaf stores mutate with a single insert/replace and
                                     do not suspend; lock wrappers suspend only in lock + delegate (C19 R1).
 R5 counter accepted before response: get_assertion's Ok is cut by (no counter) ∨ (success edge of update_credential's `?`).
+R7 assertion writes only an advanced counter : the record given to update_credential is the looked-up credential with exactly
+                                    its `counter` replaced by Some(stored + 1).
 R6 lookup error held until consent : the `?` on the looked-up credential is cut by the consent success edge and itself cuts
                                     update / extensions / signature.
 """
@@ -209,8 +211,22 @@ def run(chk):
             cut = flow.cut_by_edges(ga, 0, oks, [(guard, none_t), (tr["switch_bb"], tr["continue_bb"])])
             chk.ob("R5 counter accepted before response", "R5|get_assertion|ok-needs-accepted-counter", cut, where(ga, ups[0].call_bb),
                    "Ok is %sreachable without (counter absent) or (update_credential succeeded)" % ("un" if cut else ""))
-    # R6
+    # R7: what an assertion may write: the looked-up record with only its counter advanced
     T = flow.Terms(p, ga)
+    for a in ups:
+        st = flow.simplify_term(T.operand(a.call["args"][1], a.call_bb, "t"))
+        ok = st[0] == "with" and len(st[2]) == 1
+        wit = "record given to update_credential = %s" % flow.term_str(st)[:300]
+        if ok:
+            (pth, v), = tuple(st[2])
+            base = st[1]
+            from_lookup = flow.term_contains(base, lambda x: isinstance(x, tuple) and len(x) == 4 and x[0] == "await" and names.is_(x[1], "CredentialStore::find_credentials"))
+            adv = v[0] == "agg" and v[2] == "Some" and flow.term_contains(v, lambda x: x == ("field", ("field", ("field", base, "counter"), "as Some"), "0")) and flow.term_contains(v, lambda x: x == ("const", 1))
+            ok = pth == ("counter",) and from_lookup and adv
+            if not adv:
+                wit += " — the counter written is not Some(stored + 1): a failed or cancelled assertion can leave an altered record"
+        chk.ob("R7 assertion writes only an advanced counter", "R7|get_assertion|record-written", ok, where(ga, a.call_bb), wit)
+    # R6
     cons = None
     for a in aws:
         if a.call is not None and names.call_is(a.call, "Authenticator::check_user"):
@@ -239,4 +255,5 @@ def run(chk):
     chk.floor("R4", 7)
     chk.floor("R5", 1)
     chk.floor("R6", 2)
+    chk.floor("R7", 1)
     chk.assumptions = ["user-written stores are atomic per call", "dropping a future runs no user code other than Drop impls of std/tokio types"]
